@@ -217,6 +217,20 @@ def run(ctx):
         r.ok("C01.splice", rb.key, "update() drops only synthetic beginning_of_file tokens from what a fix hands back")
     else:
         r.fail("C01.splice", rb.key, "update() filters the fixed tokens by %s (expected: only parser.beginning_of_file)" % conds, rb.loc())
+    # ---- the model a fix works on is the text that was read: every code token of the file is in the list with its text
+    # (shared with C04.classify: classifier writes are text preserving, split builders re-emit every part)
+    from . import c04 as _c04
+    from ..classifier import ClassifierTable as _CT
+
+    scratch4 = Result("C04")
+    scratch4.load_table("c04.json")
+    _ct = _CT(p)
+    _c04._direct_writes(scratch4, p, _ct)
+    _c04._split_builders(scratch4, p, _ct)
+    for f in scratch4.findings:
+        r.fail("C01.splice", "read-side:" + f.key, "the token list a fix is spliced into does not carry the text that was read: " + f.message, f.loc)
+    if not scratch4.findings:
+        r.ok("C01.splice", "read-side", "classifier writes keep every token's text (C04.classify), so what --fix writes back is the input plus the fixes")
     # ---- late phases: reuse the effect policy of C03 for case/naming
     scratch3 = Result("C03")
     scratch3.load_table("c03.json")
